@@ -34,7 +34,8 @@ def match_known(v, known=None):
     for k in known.get("known", []):
         if k["property"] != v["prop"]:
             continue
-        if all(_field(v, f) == val for f, val in k.get("match", {}).items()):
+        if all((_field(v, f) in val) if isinstance(val, list) else (_field(v, f) == val)
+               for f, val in k.get("match", {}).items()):
             return k
     return None
 
@@ -74,6 +75,12 @@ class Reporter:
         assert v["prop"] == self.prop, (v["prop"], self.prop)
         k = match_known(v, self.known)
         if k is not None:
+            if k["id"] not in self.known_hits:
+                # one replayable witness per known finding and run
+                os.makedirs(REPLAY_DIR, exist_ok=True)
+                with open(os.path.join(REPLAY_DIR, f"{self.prop}-known-{k['id']}.json"), "w") as f:
+                    json.dump(dict(payload, violation={kk: vv for kk, vv in v.items()
+                                                       if kk not in ("trace",)}), f, default=str)
             e = self.known_hits.setdefault(k["id"], [k, 0, v])
             e[1] += v.get("count", 1)
             return "known"
